@@ -45,13 +45,15 @@ def check_unary_wrappers(rep, f, trait_path, name, keep=()):
 
 POW_RHS = ["i8", "i16", "i32", "u8", "u16", "f64", TF]
 
-def check_pow(rep, f):
+def check_pow(rep, f, rhs_types=None, rule_d="R16", rule_s="R13"):
+    """every Pow impl returns powi / powf of its operands, in all four by-value / by-reference spellings (C10; C13 and C14
+    carry the part that concerns their functions)"""
     zero = vg.f64c(0.0)
-    for rt in POW_RHS:
+    for rt in (rhs_types or POW_RHS):
         base_ident = "<&TwoFloat as num_traits::Pow<&%s>>::pow" % rt
         base = f.get(base_ident)
         if base is None:
-            rep.fail("R16", base_ident, "anchor-lost:" + base_ident, "%s not found (reason=anchor-lost)" % base_ident); continue
+            rep.fail(rule_d, base_ident, "anchor-lost:" + base_ident, "%s not found (reason=anchor-lost)" % base_ident); continue
         bt = H.norm_tree(H.tree_of(f, base, "prim", keep=KEEP_INHERENT))
         if rt in ("f64", TF):
             arg = mk("agg", ("adt", "TwoFloat", 0, "TwoFloat"), (P(1), zero)) if rt == "f64" else P(1)
@@ -59,7 +61,7 @@ def check_pow(rep, f):
         else:
             arg = P(1) if rt == "i32" else mk("cast", "IntToInt", rt, "i32", P(1))
             exp = mk("call", "TwoFloat::powi", P(0), arg)
-        rep.check(bt[0] == "leaf" and bt[1] is exp, "R16", base_ident, "delegation:" + base_ident,
+        rep.check(bt[0] == "leaf" and bt[1] is exp, rule_d, base_ident, "delegation:" + base_ident,
                   "%s does not return %s: %s" % (base_ident, vg.show(exp), vg.show(bt)[:300]), where=H.where(base), detail=exp)
         for l in ("&TwoFloat", TF):
             for r in ("&" + rt, rt):
@@ -68,10 +70,10 @@ def check_pow(rep, f):
                     continue
                 b = f.get(ident)
                 if b is None:
-                    rep.fail("R13", ident, "anchor-lost:" + ident, "%s not found (reason=anchor-lost)" % ident); continue
+                    rep.fail(rule_s, ident, "anchor-lost:" + ident, "%s not found (reason=anchor-lost)" % ident); continue
                 t = H.norm_tree(H.tree_of(f, b, "prim", keep=KEEP_INHERENT))
                 ok, d = H.result_trees_equal(bt, t)
-                rep.check(ok, "R13", ident, "spelling-differs:" + ident, "%s is not bit-identical to %s: %s" % (ident, base_ident, H.describe_diff(d)),
+                rep.check(ok, rule_s, ident, "spelling-differs:" + ident, "%s is not bit-identical to %s: %s" % (ident, base_ident, H.describe_diff(d)),
                           where=H.where(b), detail="same normal form as " + base_ident, algebra="E")
 
 # ---------------------------------------------------------------- R15 identities
